@@ -383,4 +383,17 @@ def build(path, mutate=None):
         u.funcs = [dict(function=x['function'], file=x['file']) for x in u.gen_meta.get('functions', [])] + u.funcs
     if 'unit' not in u.hdr:
         u.hdr['unit'] = os.path.splitext(os.path.basename(path))[0]
+    if u.get('pipeline', 'dfcc') == 'plain':
+        # plain pipeline: file-scope objects start at ZERO (no --nondet-static). A ghost that is never assigned anywhere would
+        # silently be the constant 0 and make the obligations that mention it vacuous: refuse to run such a unit.
+        body = re.sub(r'/\*.*?\*/', '', u.c_text, flags=re.S)
+        for m in re.finditer(r'^(?:static\s+)?(?:const\s+)?[A-Za-z_][\w \*]*?\b(G_\w+)\s*(?:\[[^\]]*\])?\s*(?:,|;)', body, re.M):
+            decl_line = body[m.start():body.find(';', m.start()) + 1]
+            if '(' in decl_line or 'const' in decl_line.split('G_')[0]:
+                continue
+            for g in re.findall(r'\bG_\w+', decl_line):
+                uses = [x for x in re.finditer(r'(?<![\w.>])%s\b' % re.escape(g), body)]
+                assigned = any(re.match(r'\s*(\[[^\]]*\])*\s*(=[^=]|\+\+|--|\+=|-=|\.|->)', body[x.end():x.end() + 40]) or re.search(r'(&|\+\+|--)\s*$', body[max(0, x.start() - 4):x.start()]) for x in uses if not (m.start() <= x.start() < m.start() + len(decl_line)))
+                if not assigned:
+                    raise cxx.ExtractError('plain-pipeline unit declares ghost %s but never assigns it (it would be the constant 0)' % g)
     return u
